@@ -350,7 +350,7 @@ def runH (c : CaseSt) (t : List String) : Option (String × CaseSt) :=
     upd (match r with
       | none => "none"
       | some items => listed (items.map (fun i =>
-          s!"{i.label}|{i.sortText}|{hexOf i.detail}|{hexOf i.insertText}|{if i.kindText then 1 else 6}|{match i.edit with | some e => s!"{e.1}:{e.2.1}:{hexOf e.2.2}" | none => "-"}")), st)
+          s!"{i.label}|{i.sortText}|{hexOf i.detail}|{hexOf i.insertText}|{if i.kindText then 1 else 6}|{match i.edit with | some e => s!"{e.1}:{e.2.1}:{hexOf e.2.2}" | none => "-"}|{hexOf (Index.fixtureDocumentation i.origin (showPath i.origin.file))}")), st)
   | ["h_action", p, l, ch] =>
     some (match st.hCodeAction (pathOf p) l.toNat! ch.toNat! with
       | none => "none"
